@@ -553,6 +553,13 @@ func (s *Set) c05() {
 		if got := simapi.IntD(wl, "spec.progressDeadlineSeconds", -1); got != 600 {
 			bad("progressDeadlineSeconds", got, 600)
 		}
+	case "statefulset", "advstatefulset":
+		if p, ok := simapi.Int(wl, "spec.updateStrategy.rollingUpdate.partition"); ok && p != 0 {
+			bad("updateStrategy.rollingUpdate.partition", p, nil)
+		}
+		if got := simapi.Str(wl, "spec.updateStrategy.type"); got != "RollingUpdate" && got != "" {
+			bad("updateStrategy.type", got, "RollingUpdate")
+		}
 	case "cloneset":
 		if simapi.Bool(wl, "spec.updateStrategy.paused") {
 			bad("updateStrategy.paused", true, false)
